@@ -43,7 +43,9 @@ CasesOf(s) ==
       \cup {Case(s, "setoctet" \o ToString(x), i, Set1(b, i, x)) : i \in Positions(n), x \in {0, 127, 128, 255, 193, 196, 197}}
       \cup {Case(s, "maxcount", i, Set1(Set1(b, i, 255), i + 1, 255)) : i \in Positions(n - 1)}
       \cup {Case(s, "insert", i, SubSeq(b, 1, i - 1) \o <<255>> \o SubSeq(b, i, n)) : i \in Positions(n)}
-      \cup {Case(s, "delete", i, SubSeq(b, 1, i - 1) \o SubSeq(b, i + 1, n)) : i \in Positions(n)})
+      \cup {Case(s, "delete", i, SubSeq(b, 1, i - 1) \o SubSeq(b, i + 1, n)) : i \in Positions(n)}
+      \* decoder dispatch: the procedure code octet (the second octet of every PDU) set to other procedure codes and to undefined ones
+      \cup (IF n >= 2 THEN {Case(s, "proc" \o ToString(c), 2, Set1(b, 2, c)) : c \in (IF Budget >= 100 THEN 0..255 ELSE (0..63) \cup {127, 128, 255}) \ {b[2]}} ELSE {}))
 \* structure-directed faults; FieldBudget field starts per seed (evenly spaced over the sorted positions)
 FieldBudget == Budget
 Sorted(S) == LET RECURSIVE F(_) F(T) == IF T = {} THEN <<>> ELSE LET x == CHOOSE y \in T : \A z \in T : y <= z IN <<x>> \o F(T \ {x}) IN F(S)
